@@ -445,6 +445,11 @@ func (e *Exec) execConvert(f *frame, st *State, x *ssa.Convert) {
 	case tok && tb.Info()&types.IsString != 0 && isByteSlice(from):
 		e.bind(f, x, Val{T: e.bytesToString(v.T), Ty: tyOfGo(x.Type())})
 		e.assume(eq(app("str.len", f.vals[x].T), app("sl-len", v.T)))
+		// string(b): character i is byte i of the slice's current content
+		bty := tyOfGo(types.Typ[types.Uint8])
+		hn := elemHeapName(bty)
+		e.regHeap(hn, "(Array Int (Array Int Int))")
+		e.assume(fmt.Sprintf("(forall ((i Int)) (! (=> (and (<= 0 i) (< i (sl-len %s))) (= (str.to_code (str.at %s i)) (select (select %s (sl-base %s)) i))) :pattern ((str.at %s i))))", v.T, f.vals[x].T, e.get(st, hn), v.T, f.vals[x].T))
 	case fok && tok && fb.Info()&types.IsString != 0 && tb.Info()&types.IsString != 0:
 		e.bind(f, x, Val{T: v.T, Ty: tyOfGo(x.Type())})
 	default:
